@@ -433,6 +433,103 @@ fn check_parent(run: &Run, pnode: &Node, cfg: &AlphaCfg, max_batch: usize) {
     });
 }
 
+/// "Changing a transaction makes the block rejected" where the forger adjusts the header as well: a member that spends a coin under
+/// a signature covenant is replaced by a twin with the same signature-free hash and a signature of the same length that does not
+/// verify (a flipped bit, another key's signature, zeroes), and the header's transaction commitment is rebuilt for the altered set
+/// outside the code under test (`c07::tx_root_of`).  Every other header field is what the honest block says - weight, fees and
+/// outputs are the same - so only the covenant run can refuse the block, and it has to refuse it although this very process has
+/// just validated the honest sibling (seed C06-r13-2: a memo of approved covenant runs keyed by the signature-free hash).
+fn forged_signature_blocks(run: &Run) {
+    use melstructs::{Denom, TxKind};
+    for net in [NetID::Custom02, NetID::Custom08] {
+        let w = world_mel(net, 10_000_000, 0);
+        let g = w.genesis.clone().seal(None);
+        let mut u = g.next_unsealed();
+        let (newsig, legacy) = (cov_new(1), cov_legacy(1));
+        let outs = vec![out(newsig.hash(), 1000, Denom::Mel), out(legacy.hash(), 2000, Denom::Mel), out_t(3000, Denom::Mel), out(newsig.hash(), 1500, Denom::Mel), out_t(10_000_000 - 7_500, Denom::Mel)];
+        let fund = tx_t(TxKind::Normal, vec![melstructs::CoinID::zero_zero()], outs, 0, vec![]);
+        if u.apply_tx(&fund).is_err() {
+            run.outcome("forged-signature-blocks:corner-not-buildable");
+            continue;
+        }
+        let parent = u.seal(None);
+        let dense = net == NetID::Custom08;
+        let path = format!("genesis[{:?}] ; funding block (coins under both signature covenants of key 1)", net);
+        let bystander = tx_t(TxKind::Normal, vec![fund.output_coinid(2)], vec![out_t(3000, Denom::Mel)], 0, vec![0xe1]);
+        let mut families: Vec<(&str, Transaction)> = vec![];
+        for (name, idx, cov, value) in [("new-sig", 0u8, &newsig, 1000u128), ("legacy-sig", 1, &legacy, 2000)] {
+            let mut t = mktx(TxKind::Normal, vec![fund.output_coinid(idx)], vec![out_t(value, Denom::Mel)], 0, vec![cov.to_bytes()], vec![0xe0 + idx]);
+            t.sigs = vec![key(1).1.sign(&t.hash_nosigs().0).into()];
+            families.push((name, t));
+        }
+        {
+            // the signature covenant on the second input: its signature sits in slot 1
+            let mut t = mktx(TxKind::Normal, vec![fund.output_coinid(2), fund.output_coinid(3)], vec![out_t(4500, Denom::Mel)], 0, vec![cov_true().to_bytes(), newsig.to_bytes()], vec![0xe7]);
+            let sig: bytes::Bytes = key(1).1.sign(&t.hash_nosigs().0).into();
+            t.sigs = vec![bytes::Bytes::new(), sig];
+            families.push(("new-sig-on-second-input", t));
+        }
+        for (name, valid) in &families {
+            for with_bystander in [false, true] {
+                if with_bystander && valid.inputs.contains(&bystander.inputs[0]) {
+                    continue;
+                }
+                for act in [None, Some(action_dest(5))] {
+                    let members: Vec<Transaction> = if with_bystander { vec![valid.clone(), bystander.clone()] } else { vec![valid.clone()] };
+                    let honest = guard(|| {
+                        let mut c = parent.next_unsealed();
+                        c.apply_tx_batch(&members).ok()?;
+                        Some(c.seal(act).to_block())
+                    });
+                    let blk = match honest {
+                        Ok(Some(b)) => b,
+                        _ => {
+                            run.outcome("forged-signature-blocks:honest-block-not-buildable");
+                            continue;
+                        }
+                    };
+                    run.state();
+                    let label = format!("{}{}{}", name, if with_bystander { "+bystander" } else { "" }, if act.is_some() { "/action" } else { "" });
+                    if tx_root_of_block(&blk, dense) != blk.header.transactions_hash.0 {
+                        // the externally rebuilt commitment does not reproduce the honest header: C07's subject, nothing can be forged here
+                        run.outcome("forged-signature-blocks:reference-commitment-differs(reported under C07)");
+                        continue;
+                    }
+                    judge(run, &parent, &blk, "honest", false, &path, &label);
+                    let slot = valid.sigs.iter().position(|s| !s.is_empty()).unwrap_or(0);
+                    let good = valid.sigs[slot].clone();
+                    let mut flipped = good.to_vec();
+                    flipped[7] ^= 0x20;
+                    let other: Vec<u8> = key(2).1.sign(&valid.hash_nosigs().0).to_vec();
+                    for (vname, sig) in [("bit-flipped", flipped), ("another-keys", other), ("zeroes", vec![0u8; good.len()])] {
+                        let mut twin = valid.clone();
+                        twin.sigs[slot] = sig.into();
+                        let mut b = blk.clone();
+                        b.transactions.remove(valid);
+                        b.transactions.insert(twin);
+                        b.header.transactions_hash = HashVal(tx_root_of_block(&b, dense));
+                        judge(run, &parent, &b, &format!("tx:signature-replaced-by-{}-header-adjusted", vname), true, &path, &label);
+                    }
+                    // the signature moved to the wrong slot (an empty one put in front), commitment adjusted as well
+                    let mut moved = valid.clone();
+                    moved.sigs.insert(0, bytes::Bytes::new());
+                    moved.sigs.truncate(valid.sigs.len().max(slot + 2));
+                    let mut b = blk.clone();
+                    b.transactions.remove(valid);
+                    b.transactions.insert(moved);
+                    b.header.transactions_hash = HashVal(tx_root_of_block(&b, dense));
+                    judge(run, &parent, &b, "tx:signature-moved-one-slot-header-adjusted", true, &path, &label);
+                }
+            }
+        }
+    }
+}
+
+fn tx_root_of_block(b: &Block, dense: bool) -> [u8; 32] {
+    let txs: Vec<Transaction> = b.transactions.iter().cloned().collect();
+    crate::props::c07::tx_root_of(&txs, dense)
+}
+
 /// A parent that has just been restarted (rebuilt with from_block from its own block and stake set) accepts what the parent
 /// that kept running produces, and the other way round - at ordinary heights and around the ends of staking epochs, where the
 /// stake set changes between a block and its successor.
@@ -609,6 +706,7 @@ pub fn run(run: &Run) {
         }
     }
     restarted_parents(run);
+    forged_signature_blocks(run);
     run.set("parents", json!(total_parents));
     run.set("networks", json!(["Custom02 (sparse tx tree)", "Custom08 (dense tx tree, TIP-908)", "Testnet (pre-TIP rules below 500)", "thorough: Custom02 with fees, Mainnet"]));
     run.sample(json!({"parent": "genesis[Custom02]", "block": "xfer(coin)/action", "mutation": "header:fee_multiplier", "oracle": "apply_block is Ok iff (batch accepted and sealed header == block header); returned header == block header"}));
